@@ -35,6 +35,13 @@ fn observe(s: &mut Session) -> BTreeMap<String, String> {
     let mut views: Vec<String> = s.db.catalog.list_views();
     views.sort();
     o.insert("listing:views".into(), format!("{:?}", views));
+    // declared columns as the catalog and as the stored table see them
+    for t in ["T", "U", "W"] {
+        let cat = s.db.catalog.get_table(t).map(|sc| sc.columns.iter().map(|c| format!("{}:{:?}:{}", c.name, c.data_type, c.nullable)).collect::<Vec<_>>());
+        let sto = s.db.get_table(t).map(|tb| tb.schema.columns.iter().map(|c| format!("{}:{:?}:{}", c.name, c.data_type, c.nullable)).collect::<Vec<_>>());
+        o.insert(format!("schema:catalog:{}", t), format!("{:?}", cat));
+        o.insert(format!("schema:storage:{}", t), format!("{:?}", sto));
+    }
     for t in ["t", "u"] {
         let r = q(s, &format!("SELECT * FROM {}", t)).map(|mut rows| {
             crate::core::canon::sort_rows(&mut rows);
@@ -81,7 +88,11 @@ fn txn_statement(rng: &mut Rng, next_id: &mut i64, ddl: bool) -> (String, &'stat
         11 => ("DROP INDEX ix_a".to_string(), "drop-index"),
         12 => ("CREATE TABLE w (k INTEGER)".to_string(), "create-table"),
         13 => ("DROP TABLE u".to_string(), "drop-table"),
-        14 => ("ALTER TABLE t ADD COLUMN z INTEGER".to_string(), "alter-add-column"),
+        14 => match rng.below(3) {
+            0 => ("ALTER TABLE t ADD COLUMN z INTEGER".to_string(), "alter-add-column"),
+            1 => ("ALTER TABLE t ALTER COLUMN b SET NOT NULL".to_string(), "alter-set-not-null"),
+            _ => ("CREATE TABLE u (k INTEGER)".to_string(), "recreate-table-other-shape"),
+        },
         _ => ("DELETE FROM t".to_string(), "delete-all"),
     }
 }
@@ -94,7 +105,9 @@ pub fn run_c13(ctx: &mut Ctx) {
         let mut s = Session::new();
         s.must("CREATE TABLE t (id INTEGER PRIMARY KEY, a INTEGER, b INTEGER, c VARCHAR(10))");
         s.must("CREATE TABLE u (k INTEGER, v INTEGER)");
-        s.must("INSERT INTO u VALUES (1, 1)");
+        if rng.chance(1, 2) {
+            s.must("INSERT INTO u VALUES (1, 1)");
+        }
         let with_index = rng.chance(2, 3);
         if with_index {
             s.must("CREATE INDEX ix_a ON t (a)");
@@ -140,7 +153,7 @@ pub fn run_c13(ctx: &mut Ctx) {
         }
         let after = observe(&mut s);
         let reference = if commit { &last } else { &before };
-        let ddl_kinds: Vec<&&str> = kinds.iter().filter(|k| ["truncate", "create-index", "drop-index", "create-table", "drop-table", "alter-add-column"].contains(*k)).collect();
+        let ddl_kinds: Vec<&&str> = kinds.iter().filter(|k| ["truncate", "create-index", "drop-index", "create-table", "drop-table", "alter-add-column", "alter-set-not-null", "recreate-table-other-shape"].contains(*k)).collect();
         if let Some((what, want, got)) = first_diff(reference, &after) {
             let obs_class = what.split(':').next().unwrap_or("").to_string() + ":" + if what.starts_with("probe") { "index-driven-query" } else { what.split(':').nth(1).unwrap_or("") };
             let cause = if ddl_kinds.is_empty() { "dml-only".to_string() } else { ddl_kinds.iter().map(|k| k.to_string()).collect::<Vec<_>>().join("+") };
@@ -170,6 +183,7 @@ pub fn run_c14(ctx: &mut Ctx) {
         // model: stack of (name, table snapshot, DML kinds executed since)
         let mut stack: Vec<(String, Vec<CRow>)> = Vec::new();
         let mut dml_since: Vec<Vec<&'static str>> = Vec::new(); // parallel to stack
+        let mut maybe: Vec<bool> = Vec::new(); // parallel to stack: fate unspecified after a RELEASE below it
         let mut ok = true;
         let steps = rng.range(3, if ctx.quick() { 16 } else { 30 });
         for _ in 0..steps {
@@ -210,6 +224,7 @@ pub fn run_c14(ctx: &mut Ctx) {
                     if !o.is_err() {
                         stack.push((name.to_uppercase(), snap));
                         dml_since.push(Vec::new());
+                        maybe.push(false);
                     } else if let Outcome::Panic(p) = &o {
                         ctx.violation(case, format!("panic:savepoint:{}", panic_class(p)), json!({"history": hist(&s)}));
                         ok = false;
@@ -217,11 +232,9 @@ pub fn run_c14(ctx: &mut Ctx) {
                     }
                 }
                 8 => {
-                    // releasing a savepoint below the top leaves the fate of later ones unspecified here: release only the top one (or an unknown name)
-                    let name = match stack.last() {
-                        Some((top, _)) if rng.chance(3, 4) => top.to_lowercase(),
-                        _ => if stack.iter().any(|(n, _)| *n == name.to_uppercase()) { "szz".to_string() } else { name.clone() },
-                    };
+                    // RELEASE of any live savepoint (or an unknown name). Savepoints created after a released one have
+                    // an unspecified fate: they are marked "maybe" and only judged if the engine still accepts them.
+                    let name = if !stack.is_empty() && rng.chance(3, 4) { stack[rng.usize(stack.len())].0.to_lowercase() } else if stack.iter().any(|(n, _)| *n == name.to_uppercase()) { "szz".to_string() } else { name.clone() };
                     let before = q(&mut s, "SELECT id, a, b, c FROM t").unwrap_or_default();
                     let o = s.exec(&format!("RELEASE SAVEPOINT {}", name));
                     if let Outcome::Panic(p) = &o {
@@ -238,18 +251,27 @@ pub fn run_c14(ctx: &mut Ctx) {
                     let pos = stack.iter().rposition(|(n, _)| *n == name.to_uppercase());
                     match (pos, o.is_err()) {
                         (Some(p), false) => {
-                            stack.truncate(p);
-                            dml_since.truncate(p);
+                            stack.remove(p);
+                            dml_since.remove(p);
+                            maybe.remove(p);
+                            for m in maybe.iter_mut().skip(p) {
+                                *m = true;
+                            }
                         }
                         (None, false) => {
                             ctx.violation(case, "release-of-unknown-savepoint-accepted", json!({"name": name, "history": hist(&s)}));
                             ok = false;
                             break;
                         }
-                        (Some(_), true) => {
-                            ctx.violation(case, "release-of-live-savepoint-rejected", json!({"name": name, "error": o.brief(), "history": hist(&s)}));
-                            ok = false;
-                            break;
+                        (Some(p), true) => {
+                            if !maybe[p] {
+                                ctx.violation(case, "release-of-live-savepoint-rejected", json!({"name": name, "error": o.brief(), "history": hist(&s)}));
+                                ok = false;
+                                break;
+                            }
+                            stack.truncate(p);
+                            dml_since.truncate(p);
+                            maybe.truncate(p);
                         }
                         (None, true) => {}
                     }
@@ -276,8 +298,15 @@ pub fn run_c14(ctx: &mut Ctx) {
                             // s stays, later savepoints are destroyed
                             stack.truncate(p + 1);
                             dml_since.truncate(p + 1);
+                            maybe.truncate(p + 1);
                             dml_since[p].clear();
                             ctx.nontrivial(format!("rollback-to|depth{}|{}|since={}", p, class, since.len().min(3)));
+                        }
+                        (Some(p), true) if maybe[p] => {
+                            // destroyed by an earlier RELEASE under the stricter reading: accept
+                            stack.truncate(p);
+                            dml_since.truncate(p);
+                            maybe.truncate(p);
                         }
                         (Some(p), true) => {
                             let class = if dml_since[p].iter().all(|k| *k == "insert") { "insert-only" } else { "with-update-or-delete" };
